@@ -138,7 +138,9 @@ def load(R):
                ensures=["result == (dict_has(self.ref, self.symbol) if self.ref_is_global_table else has_attr(self.ref, self.symbol))"])
     R.entity("MementoFunctionHashRule", ("code_hash", "MementoFunctionHashRule"), dict(resolver=TObj("nn:callable"), memento_fn=TObj()))
     R.contract(C + "MementoFunctionHashRule.did_change", prop="C13", types={"self": TEnt("MementoFunctionHashRule")}, returns=TBool,
-               ensures=["result == (not isinstance(call_result(self.resolver), MementoFunctionType))"])
+               # from the property: a rule reports a change whenever what its symbol resolves to would give another rule hash from scratch -- for a memento
+               # function: the symbol no longer resolves to a memento function, OR it resolves to another one (rebinding dep = g2)
+               ensures=["result == (not isinstance(call_result(self.resolver), MementoFunctionType) or not same(call_result(self.resolver), self.memento_fn))"])
     R.entity("GlobalVariableHashRule", ("code_hash", "GlobalVariableHashRule"), dict(var=TObj(), resolver=TObj("nn:callable"), last_value=TObj()))
     R.contract(C + "GlobalVariableHashRule._serialize_value", assumed=True, types={"var": TObj()}, returns=TObj(), ensures=["same(result, serialize(var))"])
     R.contract(C + "GlobalVariableHashRule.did_change", prop="C13", types={"self": TEnt("GlobalVariableHashRule")}, returns=TBool,
